@@ -88,6 +88,41 @@ def test_trapezoid(rep, combo, glob, reuse=True):
              got=got[:12], expected=exp[:12])
 
 
+def test_trapezoid_toggle(rep, st_on, st_off, glob):
+    """boundary points switched off and on again on ONE grid object for the same sub-box (set_boundaries): every read-out must be the
+    contract of the flag that is set at that moment"""
+    from sparseSpACE.Grid import TrapezoidalGrid
+    a, b = np.array([glob[0]]), np.array([glob[1]])
+    start, end = np.array([real(st_on['s'], glob)]), np.array([real(st_on['e'], glob)])
+    lv = [int(st_on['lvl'])]
+    grid = TrapezoidalGrid(a=a, b=b, boundary=True)
+    seq = [(True, st_on), (False, st_off), (True, st_on), (False, st_off)]
+    for i, (flag, st) in enumerate(seq):
+        case = {'levelvec': lv, 'start': list(start), 'end': list(end), 'a': list(a), 'b': list(b), 'boundary': flag, 'sequence': 'set_boundaries toggled %d times on one object' % i}
+        midpoint_rule = (not flag) and lv[0] == 0 and (int(st['s'] == 0) + int(st['e'] == LAT)) == 1
+        try:
+            with impl.quiet():
+                grid.set_boundaries([flag])
+                grid.boundary = flag
+                grid.setCurrentArea(start, end, lv)
+                pts, w = grid.get_points_and_weights()
+                n_ann = [int(x) for x in grid.levelToNumPoints(lv)]
+        except Exception as ex:
+            rep.violation('C08_NoException', {'family': 'trapezoid', 'boundary': flag, 'toggled': True}, dict(case, exception=repr(ex)), what='trapezoid %s raised %r' % (case, ex))
+            return
+        exp = sorted(zip([real(x, glob) for x in st['pts']], [x * (glob[1] - glob[0]) / LAT / 2 for x in st['w2']]))
+        got = sorted(zip([float(p[0]) for p in pts], [float(x) for x in (w if len(pts) else [])]))
+        rep.count(1, key=json.dumps(case))
+        same = len(got) == len(exp) and all(abs(g[0] - e[0]) <= 1e-12 * max(1.0, abs(e[0])) and abs(g[1] - e[1]) <= 1e-13 * max(1.0, abs(e[1])) for g, e in zip(got, exp))
+        if int(np.prod(n_ann)) != len(pts):
+            rep.violation('C08_CountMatches', {'family': 'trapezoid', 'boundary': flag, 'toggled': True, 'one_point_midpoint_rule': midpoint_rule}, dict(case, announced=n_ann, returned=len(pts)),
+                          what='trapezoid %s: announces %s points, returns %d' % (case, n_ann, len(pts)))
+        elif not same:
+            rep.violation('C08_BoundaryOffDropsExactlyBoundaryPoints' if not flag else 'C08_TrapezoidPointsAndWeights',
+                          {'family': 'trapezoid', 'boundary': flag, 'toggled': True, 'one_point_midpoint_rule': midpoint_rule}, dict(case, got=got[:12], expected=exp[:12]),
+                          what='trapezoid %s: points/weights differ from the contract of the flag now set (got %s, expected %s)' % (case, got[:4], exp[:4]))
+
+
 def polyfun(D, degs):
     from sparseSpACE.Function import Function
 
@@ -115,7 +150,9 @@ def test_family(rep, name, mk, degree_of, lv, start, end, a, b, reuse=True):
             pts = [tuple(float(x) for x in p) for p in grid.getPoints()]
             degs_1d = [degree_of(n) for n in n_ann]
             degs = [k for k in itertools.product(*[range(0, dg + 1) for dg in degs_1d]) if sum(1 for v in k if v > 0) <= 1 or D == 1][:12]
-            got = np.asarray(grid.integrate(polyfun(D, degs), lv, np.array(start), np.array(end)), dtype=float)
+            got = np.atleast_1d(np.asarray(grid.integrate(polyfun(D, degs), lv, np.array(start), np.array(end)), dtype=float)).reshape(-1)
+            if got.size == 1 and len(degs) > 1:
+                got = np.full(len(degs), got[0])      # a scalar where one value per component is due: judged component by component below
     except impl.Timeout:
         rep.exclude('%s level %s: timeout' % (name, lv))
         return
@@ -133,7 +170,7 @@ def test_family(rep, name, mk, degree_of, lv, start, end, a, b, reuse=True):
         fail('C08_InsideBox', 'a point lies outside the sub-box')
     for k, g in zip(degs, got):
         ex = float(np.prod([(end[d] ** (k[d] + 1) - start[d] ** (k[d] + 1)) / (k[d] + 1) for d in range(D)]))
-        scale = max(1.0, float(np.prod([max(abs(start[d]), abs(end[d])) ** k[d] * (end[d] - start[d]) for d in range(D)])))
+        scale = float(np.prod([max(abs(start[d]), abs(end[d])) ** k[d] * (end[d] - start[d]) for d in range(D)]))      # size of the exact value: the comparison is relative
         tol = 1e-6 if name == 'leja' else 1e-9
         if abs(g - ex) > tol * scale:
             ok = False
@@ -152,7 +189,11 @@ def families():
             ('lagrange-p2', lambda a, b: G.LagrangeGrid(a=a, b=b, boundary=True, p=2), lambda n: min(2, n - 1)),
             ('lagrange-p3', lambda a, b: G.LagrangeGrid(a=a, b=b, boundary=True, p=3), lambda n: min(3, n - 1)),
             ('bspline-p3', lambda a, b: G.BSplineGrid(a=a, b=b, boundary=True, p=3), lambda n: min(3, n - 1)),
-            ('bspline-p1', lambda a, b: G.BSplineGrid(a=a, b=b, boundary=True, p=1), lambda n: min(1, n - 1))]
+            ('bspline-p1', lambda a, b: G.BSplineGrid(a=a, b=b, boundary=True, p=1), lambda n: min(1, n - 1)),
+            # the point-by-point integrator the grids offer as integrator='old'
+            ('trapezoid/old-integrator', lambda a, b: G.TrapezoidalGrid(a=a, b=b, boundary=True, integrator='old'), lambda n: 1),
+            ('simpson/old-integrator', lambda a, b: G.SimpsonGrid(a=a, b=b, boundary=True, integrator='old'), lambda n: 3 if n >= 3 else 1),
+            ('clenshaw-curtis/old-integrator', lambda a, b: G.ClenshawCurtisGrid(a=a, b=b, boundary=True, integrator='old'), lambda n: n - 1)]
 
 
 def run(tier, seed):
@@ -177,6 +218,13 @@ def run(tier, seed):
         for combo in triples:
             test_trapezoid(rep, list(combo), [GLOBAL[0], GLOBAL[1], GLOBAL[0]])
             n += 1
+    off = {(int(s['lvl']), int(s['s']), int(s['e'])): s for s in byb[False]}
+    for st in byb[True]:
+        k = (int(st['lvl']), int(st['s']), int(st['e']))
+        if k in off:
+            for g in GLOBAL:
+                test_trapezoid_toggle(rep, st, off[k], g)
+                n += 1
     rep.cov['spec_states_tested_on_impl'] = n
     # residual: other families over the same enumeration of (level, sub-box), boundary on
     for name, mk, degree_of in families():
@@ -191,6 +239,21 @@ def run(tier, seed):
             gl = [GLOBAL[0], GLOBAL[1]]
             test_family(rep, name, mk, degree_of, [int(s['lvl']) for s in c2], [real(s['s'], gl[d]) for d, s in enumerate(c2)],
                         [real(s['e'], gl[d]) for d, s in enumerate(c2)], np.array([x[0] for x in gl]), np.array([x[1] for x in gl]))
+        # three dimensions (tensor weights become small) and a tiny global box
+        if name != 'leja':
+            for _ in range(6 if tier == 'quick' else 40):
+                c3 = tuple(rng.choice(sts) for _ in range(3))
+                gl = [GLOBAL[0], GLOBAL[1], GLOBAL[0]]
+                test_family(rep, name, mk, degree_of, [int(s['lvl']) for s in c3], [real(s['s'], gl[d]) for d, s in enumerate(c3)],
+                            [real(s['e'], gl[d]) for d, s in enumerate(c3)], np.array([x[0] for x in gl]), np.array([x[1] for x in gl]), reuse=False)
+            full = [s for s in sts if int(s['s']) == 0 and int(s['e']) == LAT and int(s['lvl']) == max(int(x['lvl']) for x in sts)][:1]
+            for s in full:
+                gl = [GLOBAL[0]] * 3
+                test_family(rep, name, mk, degree_of, [int(s['lvl'])] * 3, [0.0] * 3, [1.0] * 3, np.zeros(3), np.ones(3), reuse=False)
+            tiny = (0.001, 0.002)
+            for s in sts[:: max(1, len(sts) // 6)]:
+                for D in (1, 2, 3):
+                    test_family(rep, name, mk, degree_of, [int(s['lvl'])] * D, [real(s['s'], tiny)] * D, [real(s['e'], tiny)] * D, np.full(D, tiny[0]), np.full(D, tiny[1]), reuse=False)
     rep.cov['exhaustive'] = True
     rep.sample({'example_state': {k: states[5][k] for k in ('lvl', 's', 'e', 'bnd', 'pts', 'w2')}})
     rep.cov['rule'] = ('every state of LocalGrid.tla (level <= %d, dyadic sub-intervals of depth <= %d, boundary flag) in 1-D, tensor pairs (quick: seeded sample of 500) and sampled '
